@@ -53,6 +53,19 @@ func c08Item(r *rand.Rand, sel int, tier string) Ev {
 	case 23:
 		d := rndSeg(r)
 		d.Ident = [][]byte{[]byte("CUEJ"), []byte("cuei"), {0, 0, 0, 0}, []byte("DVBI")}[r.Intn(4)]
+		if r.Intn(2) == 0 { // a letter-case spelling or a one-bit neighbour of the identifier
+			id := []byte("CUEI")
+			if r.Intn(2) == 0 {
+				for m, k := 1+r.Intn(15), 0; k < 4; k++ {
+					if m>>uint(k)&1 != 0 {
+						id[k] |= 0x20
+					}
+				}
+			} else {
+				id[r.Intn(4)] ^= 1 << uint(r.Intn(8))
+			}
+			d.Ident = id
+		}
 		s.Descs = append(s.Descs, d)
 	case 24:
 		if r.Intn(2) == 0 {
